@@ -24,6 +24,10 @@ stage = [
     dict(kind='fragment', path='cds/intrusive/details/split_list_base.h', name='dummy_hash',
          anchor=r'template <typename BitReversalAlgo>\s*static inline size_t dummy_hash\(\s*size_t \w+\s*\)', rewrites=FUNCTOR_TMP),
 ]
+MM = dict(re=r'memory_model::memory_order_(\w+)', to=r'atomics::memory_order_\1', count='1+', why='typedef scope; orders ignored by the SC stub')
+stage.append(dict(kind='fragment', path=FILES['hp'], name='max_item_count', anchor=r'static size_t max_item_count\(\s*size_t \w+, size_t \w+\s*\)'))
+stage.append(dict(kind='fragment', path=FILES['hp'], name='inc_item_count', anchor=r'void inc_item_count\(\)', rewrites=[MM,
+    dict(lit='std::numeric_limits<size_t>::max()', to='SIZE_MAX', count=1, why='numeric_limits (libstdc++) -> the same constant')]))
 decl_rules = [dict(path='cds/details/size_t_cast.h', re=r'struct size_t_unsigned<8>\s*\{\s*typedef uint64_t type;', count=1),
               dict(path='cds/details/size_t_cast.h', re=r'return static_cast< size_t_unsigned<sizeof\( size_t \)>::type>\( n \);', count=1)]
 for t, f in FILES.items():
@@ -63,6 +67,12 @@ groups += [
     lemma('lemma_no_dummy_between', 'no foreign dummy between a bucket dummy and its key'),
     lemma('lemma_bucket_contiguous', 'no foreign dummy between two keys of one bucket'),
 ]
+groups += [
+    dict(name='lemma_growth', harness='h_lemma_growth', enforce=[], replace=['c_regular_hash', 'c_dummy_hash', 'c_bucket_no', 'c_parent_bucket'],
+         functions=['lemma over the C27 contracts: doubling the bucket table does not move keys out of reach'], expect=[r'C17\.lemma'], timeout=600, props=['C17']),
+    dict(name='inc_item_count', harness='h_inc_item_count', enforce=[], dfcc=False, functions=['SplitListSet::inc_item_count', 'SplitListSet::max_item_count'],
+         expect=[r'C17\.inc_item_count'], timeout=600, props=['C17']),
+]
 # cross-check (thorough): the hash functions with the reversal INLINED (no callee contract)
 for R in ('swar', 'lookup', 'muldiv'):
     x = g('regular_hash_' + R, ['cds::intrusive::split_list::regular_hash<%s> [reversal inlined]' % R], tier='thorough')
@@ -70,7 +80,7 @@ for R in ('swar', 'lookup', 'muldiv'):
     groups.append(x)
 
 UNIT = dict(
-    properties=['C27'],
+    properties=['C27', 'C17'],
     stage=stage, decl_rules=decl_rules,
     cxx=['shim.cpp'], c=['contracts.c'], cxxflags=['-Dconstexpr=', '-Dnoexcept=', '-Dexplicit=', '-I/verif/units/bits'],
     groups=groups,
